@@ -31,6 +31,7 @@ type PkgSpec struct {
 	HasTag  bool     `json:"tag,omitempty"`   // file variant selected by build tag "alt"
 	HasX    bool     `json:"x,omitempty"`     // string variable overridable with -X
 	Embed   bool     `json:"embed,omitempty"` // //go:embed data file
+	Ext     bool     `json:"ext,omitempty"`   // lives in a second module (c13ext) that the main module requires at v1.0.0 and replaces by a local directory
 }
 
 type Step struct {
@@ -72,13 +73,13 @@ var (
 // first runs of every batch are batteries (one per clock mode), because a quick
 // batch affords only a dozen histories and must not depend on luck for the
 // basic cases.  Random histories follow.
-func battery(clock string, embed bool) *Scenario {
+func battery(clock string, embed, ext bool) *Scenario {
 	sc := &Scenario{Clock: clock}
 	sc.Pkgs = []PkgSpec{
 		{Name: "p0", Imports: []string{"p1", "p3"}, HasTag: true},
 		{Name: "p1", Imports: []string{"p2"}},
 		{Name: "p2", Imports: []string{"p3"}, HasC: true, TwoC: true, LinkLib: haveBz2},
-		{Name: "p3", HasC: true, Embed: embed},
+		{Name: "p3", HasC: true, Embed: embed, Ext: ext},
 	}
 	b := Step{K: "build"}
 	sc.Steps = []Step{{K: "crash", Pkg: 2, Target: "lib-manifest"}, b, // the very first build dies between the archive and the manifest of the link-argument package
@@ -107,7 +108,7 @@ func battery(clock string, embed bool) *Scenario {
 
 func (prop) Generate(rng *sim.Rng, tier string, runIndex int) driver.Scenario {
 	if runIndex < 4 {
-		return battery([]string{"normal", "coarse", "stall", "backwards"}[runIndex], useEmbed && runIndex == 0)
+		return battery([]string{"normal", "coarse", "stall", "backwards"}[runIndex], useEmbed && runIndex == 0, runIndex%2 == 1)
 	}
 	sc := &Scenario{}
 	n := rng.Range(3, 4)
@@ -151,6 +152,10 @@ func (prop) Generate(rng *sim.Rng, tier string, runIndex int) driver.Scenario {
 	sc.Pkgs[rng.Intn(n)].HasTag = true
 	if embedWorld {
 		sc.Pkgs[rng.Intn(n)].Embed = true
+	}
+	if rng.Intn(3) == 0 {
+		// the shared leaf lives in a second module, required at a version and replaced by a directory
+		sc.Pkgs[n-1].Ext, sc.Pkgs[n-1].LinkLib = true, false
 	}
 	sc.Clock = []string{"normal", "normal", "normal", "stall", "backwards", "coarse"}[rng.Intn(6)]
 	ns := rng.Range(6, 10)
@@ -246,6 +251,30 @@ type world struct {
 	keep  bool
 }
 
+// modOf is the module of package i; pkgDir its directory.
+func (w *world) modOf(i int) string {
+	if w.sc.Pkgs[i].Ext {
+		return "c13ext"
+	}
+	return "c13mod"
+}
+
+func (w *world) pkgDir(i int) string {
+	if w.sc.Pkgs[i].Ext {
+		return filepath.Join(filepath.Dir(w.dir), "ext", w.sc.Pkgs[i].Name)
+	}
+	return filepath.Join(w.dir, w.sc.Pkgs[i].Name)
+}
+
+func (w *world) byName(name string) int {
+	for i, p := range w.sc.Pkgs {
+		if p.Name == name {
+			return i
+		}
+	}
+	return 0
+}
+
 func (w *world) logf(f string, a ...any) {
 	if w.keep {
 		w.log = append(w.log, fmt.Sprintf(f, a...))
@@ -255,7 +284,7 @@ func (w *world) logf(f string, a ...any) {
 // line is what package i contributes: its own inputs plus the lines of its imports.
 func (w *world) line(i int) string {
 	p, s := w.sc.Pkgs[i], w.st[i]
-	parts := []string{p.Name, fmt.Sprintf("src=v%04d", s.srcVer)}
+	parts := []string{p.Name, fmt.Sprintf("src=v%04d", s.srcVer), "aux=23"}
 	if p.HasC {
 		parts = append(parts, fmt.Sprintf("c=%d", s.cVal))
 	}
@@ -323,14 +352,14 @@ func (w *world) write(path, content string) {
 
 func (w *world) writePkg(i int) {
 	p, s := w.sc.Pkgs[i], w.st[i]
-	d := filepath.Join(w.dir, p.Name)
+	d := w.pkgDir(i)
 	var sb strings.Builder
 	fmt.Fprintf(&sb, "package %s\n\nimport (\n\t_ \"unsafe\"\n", p.Name)
 	if p.Embed {
 		sb.WriteString("\t_ \"embed\"\n")
 	}
 	for _, im := range p.Imports {
-		fmt.Fprintf(&sb, "\t\"c13mod/%s\"\n", im)
+		fmt.Fprintf(&sb, "\t\"%s/%s\"\n", w.modOf(w.byName(im)), im)
 	}
 	if p.LinkLib {
 		// a package that is nothing but link-name declarations and a link argument:
@@ -357,7 +386,7 @@ func (w *world) writePkg(i int) {
 		sb.WriteString("//go:embed data.txt\nvar data string\n\n")
 	}
 	sb.WriteString("func itoa(n int32) string {\n\tif n == 0 {\n\t\treturn \"0\"\n\t}\n\ts := \"\"\n\tfor n > 0 {\n\t\ts = string(rune('0'+n%10)) + s\n\t\tn /= 10\n\t}\n\treturn s\n}\n\n")
-	sb.WriteString("func Line() string {\n\ts := \"" + p.Name + " src=\" + srcVer\n")
+	sb.WriteString("func Line() string {\n\ts := \"" + p.Name + " src=\" + srcVer + \" aux=\" + itoa(int32(auxSum()))\n")
 	if p.HasC {
 		sb.WriteString("\ts += \" c=\" + itoa(cval())\n")
 	}
@@ -383,6 +412,65 @@ func (w *world) writePkg(i int) {
 	w.write(filepath.Join(d, p.Name+".go"), sb.String())
 }
 
+// auxSource is a second file of every package: several named types with
+// methods, an interface, function-local types converted to interfaces and told
+// apart by a type switch.  It gives the compiler many package members, methods
+// and type descriptors to emit (in a reproducible order); it never changes.
+func auxSource(name string) string {
+	return "package " + name + `
+
+type shape interface{ Area() int }
+
+type sq struct{ s int }
+
+func (x sq) Area() int { return x.s * x.s }
+
+type rect struct{ w, h int }
+
+func (x rect) Area() int { return x.w * x.h }
+
+type tri struct{ b, h int }
+
+func (x tri) Area() int { return x.b * x.h / 2 }
+
+type circ struct{ r int }
+
+func (x circ) Area() int { return 3 * x.r * x.r }
+
+type dot struct{}
+
+func (dot) Area() int { return 0 }
+
+func kind(v any) int {
+	type cell struct{ a int }
+	type pair struct{ a, b int }
+	switch v.(type) {
+	case cell:
+		return 100
+	case pair:
+		return 200
+	case shape:
+		return 0
+	}
+	return 0
+}
+
+func auxSum() int {
+	type cell struct{ a int }
+	type pair struct{ a, b int }
+	boxed := []any{cell{1}, pair{1, 2}, dot{}}
+	n := 0
+	for _, s := range []shape{sq{2}, rect{2, 3}, tri{4, 5}, circ{1}, dot{}} {
+		n += s.Area()
+	}
+	for _, b := range boxed {
+		n += kind(b) // these local types are not kind's local types
+	}
+	return n
+}
+`
+}
+
 func (w *world) cSource(i int) string {
 	p := w.sc.Pkgs[i]
 	src := fmt.Sprintf("int %s_cval(void) { return %d; }\n", p.Name, w.st[i].cVal)
@@ -390,11 +478,20 @@ func (w *world) cSource(i int) string {
 }
 
 func (w *world) writeAll() {
-	w.write(filepath.Join(w.dir, "go.mod"), "module c13mod\n\ngo 1.23\n")
+	anyExt := false
+	for _, p := range w.sc.Pkgs {
+		anyExt = anyExt || p.Ext
+	}
+	if anyExt {
+		w.write(filepath.Join(w.dir, "go.mod"), "module c13mod\n\ngo 1.23\n\nrequire c13ext v1.0.0\n\nreplace c13ext => ../ext\n")
+		w.write(filepath.Join(filepath.Dir(w.dir), "ext", "go.mod"), "module c13ext\n\ngo 1.23\n")
+	} else {
+		w.write(filepath.Join(w.dir, "go.mod"), "module c13mod\n\ngo 1.23\n")
+	}
 	var mb strings.Builder
 	mb.WriteString("package main\n\nimport (\n")
-	for _, p := range w.sc.Pkgs {
-		fmt.Fprintf(&mb, "\t\"c13mod/%s\"\n", p.Name)
+	for i, p := range w.sc.Pkgs {
+		fmt.Fprintf(&mb, "\t\"%s/%s\"\n", w.modOf(i), p.Name)
 	}
 	mb.WriteString(")\n\nfunc main() {\n")
 	for _, p := range w.sc.Pkgs {
@@ -404,7 +501,8 @@ func (w *world) writeAll() {
 	w.write(filepath.Join(w.dir, "main.go"), mb.String())
 	for i, p := range w.sc.Pkgs {
 		w.writePkg(i)
-		d := filepath.Join(w.dir, p.Name)
+		d := w.pkgDir(i)
+		w.write(filepath.Join(d, p.Name+"_aux.go"), auxSource(p.Name))
 		if p.HasC {
 			w.write(filepath.Join(d, "_wrap", "w.c"), w.cSource(i))
 		}
@@ -555,14 +653,14 @@ func (w *world) mismatch(r buildResult) string {
 	}
 	calls := map[string]int{}
 	for _, l := range strings.Split(r.stdout, "\n") {
-		if strings.HasPrefix(l, "call c13mod/") {
+		if strings.HasPrefix(l, "call c13mod/") || strings.HasPrefix(l, "call c13ext/") {
 			calls[strings.TrimPrefix(l, "call ")]++
 		} else if !w.trace && strings.HasPrefix(l, "call ") {
 			calls[strings.TrimPrefix(l, "call ")]++
 		}
 	}
 	for i, p := range w.sc.Pkgs {
-		fn := "c13mod/" + p.Name + ".Line"
+		fn := w.modOf(i) + "/" + p.Name + ".Line"
 		want := 0
 		if w.trace {
 			want = w.lineCalls(i)
@@ -686,7 +784,7 @@ func (prop) Run(scx driver.Scenario, ch *sim.Choices, keep bool) *driver.Result 
 		switch st.K {
 		case "edit-src", "edit-src-same":
 			s := &w.st[st.Pkg]
-			path := filepath.Join(w.dir, sc.Pkgs[st.Pkg].Name, sc.Pkgs[st.Pkg].Name+".go")
+			path := filepath.Join(w.pkgDir(st.Pkg), sc.Pkgs[st.Pkg].Name+".go")
 			before, _ := os.Stat(path)
 			s.srcVer++
 			if st.K == "edit-src" {
@@ -699,10 +797,10 @@ func (prop) Run(scx driver.Scenario, ch *sim.Choices, keep bool) *driver.Result 
 			w.logf("step %d: edit Go source of %s -> v%04d (same size: %v, same mtime+size: %v)", si, sc.Pkgs[st.Pkg].Name, s.srcVer, st.K == "edit-src-same", sameMtime)
 		case "edit-c":
 			s := &w.st[st.Pkg]
-			path := filepath.Join(w.dir, sc.Pkgs[st.Pkg].Name, "_wrap", "w.c")
+			path := filepath.Join(w.pkgDir(st.Pkg), "_wrap", "w.c")
 			second := sc.Pkgs[st.Pkg].TwoC && st.Arg%2 == 1
 			if second {
-				path = filepath.Join(w.dir, sc.Pkgs[st.Pkg].Name, "_wrap", "w2.c")
+				path = filepath.Join(w.pkgDir(st.Pkg), "_wrap", "w2.c")
 			}
 			before, _ := os.Stat(path)
 			if second {
@@ -719,7 +817,7 @@ func (prop) Run(scx driver.Scenario, ch *sim.Choices, keep bool) *driver.Result 
 		case "edit-embed":
 			s := &w.st[st.Pkg]
 			s.embedVer = s.embedVer%8 + 1 // one digit: same size
-			w.write(filepath.Join(w.dir, sc.Pkgs[st.Pkg].Name, "data.txt"), fmt.Sprintf("e%d", s.embedVer))
+			w.write(filepath.Join(w.pkgDir(st.Pkg), "data.txt"), fmt.Sprintf("e%d", s.embedVer))
 			sameMtime = false // embedded files are digested by content
 			lastEdit = st.K
 			w.logf("step %d: edit embedded file of %s -> e%d", si, sc.Pkgs[st.Pkg].Name, s.embedVer)
@@ -747,7 +845,7 @@ func (prop) Run(scx driver.Scenario, ch *sim.Choices, keep bool) *driver.Result 
 			res.Probes["ir-reproducibility-comparisons"]++
 			user := 0
 			for n := range a {
-				if strings.HasPrefix(n, "c13mod") {
+				if strings.HasPrefix(n, "c13mod") || strings.HasPrefix(n, "c13ext") {
 					user++
 				}
 			}
@@ -761,12 +859,12 @@ func (prop) Run(scx driver.Scenario, ch *sim.Choices, keep bool) *driver.Result 
 			// the textual round trip of the runtime package fails and ends the build
 			var names []string
 			for n := range a {
-				if _, ok := b[n]; ok || strings.HasPrefix(n, "c13mod") {
+				if _, ok := b[n]; ok || strings.HasPrefix(n, "c13mod") || strings.HasPrefix(n, "c13ext") {
 					names = append(names, n)
 				}
 			}
 			for n := range b {
-				if _, ok := a[n]; !ok && strings.HasPrefix(n, "c13mod") {
+				if _, ok := a[n]; !ok && (strings.HasPrefix(n, "c13mod") || strings.HasPrefix(n, "c13ext")) {
 					names = append(names, n)
 				}
 			}
@@ -806,12 +904,12 @@ func (prop) Run(scx driver.Scenario, ch *sim.Choices, keep bool) *driver.Result 
 				if pendingFault.Target == "lib-manifest" {
 					name += "lib"
 				}
-				match = "rename|/c13mod/" + name + "/|" + suffix
+				match = "rename|/" + w.modOf(pendingFault.Pkg) + "/" + name + "/|" + suffix
 				crashAt = 0
 			}
 			if pendingFault.K == "fserr" && pendingFault.Target != "" {
 				m := map[string]string{"archive-write": "write|%s|.a.tmp-", "archive-close": "close|%s|.a.tmp-", "manifest-write": "write|%s|manifest-"}[pendingFault.Target]
-				match = "fserr:" + fmt.Sprintf(m, "/c13mod/"+sc.Pkgs[pendingFault.Pkg].Name+"/")
+				match = "fserr:" + fmt.Sprintf(m, "/"+w.modOf(pendingFault.Pkg)+"/"+sc.Pkgs[pendingFault.Pkg].Name+"/")
 				fserr = 0
 			}
 			if crashAt > 0 || fserr > 0 || match != "" {
